@@ -338,6 +338,76 @@ native(f"{G}:GHE.simulate", _sim_real_check, _sim_real_gen, None,
        bound="real GHE objects (1 or 4 boreholes, 3 pipe types, 12/18/24 months): hybrid/hourly results independent of earlier simulate calls; load series (list, and float array for 12-month horizons) unchanged by simulate; zero load -> ground temperature exactly; ground temperature shift")
 
 
+# ---- GHE.size on a g-function family that does not span the height window (C05 / C12: root or clamp, also outside the tabulated heights) -----------
+def _size_narrow_check(a):
+    """GHE.size on a g-function family that does not span the height window: the result is a root of the excess (within the sizing tolerance) or sits at a bound with the
+    sign that explains it - also when the root lies outside the tabulated heights (the family is then extrapolated, which the tool does with a warning)"""
+    import warnings
+    from ghedesigner.enums import TimestepType
+    from ghedesigner.gfunction import calc_g_func_for_multiple_lengths
+    from ghedesigner.ground_heat_exchangers import GHE
+    from ghedesigner.simulation import SimulationParameters
+    from ghedesigner.utilities import eskilson_log_times
+
+    with warnings.catch_warnings():
+        warnings.simplefilter("ignore")
+        d = build_manager({"kind": a["kind"], "scale": a["scale"], "length": 12.0, "months": 12})._design
+        n = a.get("n", 4)
+        coords = [(float(i % 2) * 6.0, float(i // 2) * 6.0) for i in range(n)]
+        heights = a["table"]
+        hmin, hmax = a["hmin"], a["hmax"]
+        sp = SimulationParameters(1, 12, 35, 5, hmax, hmin)
+        m_flow = 0.3 / 1000.0 * d.fluid.rho
+        gf = calc_g_func_for_multiple_lengths(6.0, heights, d.borehole.r_b, d.borehole.D, m_flow, d.bhe_type, eskilson_log_times(), coords, d.fluid, d.pipe, d.grout, d.soil)
+        d.borehole.H = heights[1]
+        ghe = GHE(0.3 * n, 6.0, d.bhe_type, d.fluid, d.borehole, d.pipe, d.grout, d.soil, gf, sp, d.hourly_extraction_ground_loads)
+        ghe.size(method=TimestepType.HYBRID)
+        H = ghe.bhe.b.H
+        if not hmin - 1e-9 <= H <= hmax + 1e-9:
+            return False, {"why": "sized height outside the window", "H": H}
+
+        def excess(h):
+            ghe.bhe.b.H = h
+            mx, mn = ghe.simulate(method=TimestepType.HYBRID)
+            return ghe.cost(mx, mn)
+
+        e_h = excess(H)
+        e_lo, e_hi = excess(hmin), excess(hmax)
+        ghe.bhe.b.H = H
+        if hmin + 1e-6 < H < hmax - 1e-6:
+            if abs(e_h) > 1e-3:
+                return False, {"why": "the sized height is strictly inside the window but the excess there is not zero (not a root of the excess)", "H": H, "excess": e_h,
+                               "tabulated_heights": heights, "window": [hmin, hmax], "excess_at_bounds": [e_lo, e_hi], "signature": "size-not-a-root"}
+        elif H >= hmax - 1e-6:
+            if e_hi < -1e-3 and e_lo > 0:
+                return False, {"why": "clamped at the maximum height although the limits are met there with margin and a root is bracketed", "excess_at_bounds": [e_lo, e_hi], "signature": "size-clamped-max-wrongly"}
+        else:
+            if e_lo > 1e-3:
+                return False, {"why": "clamped at the minimum height although the limits are not met there", "excess_at_bounds": [e_lo, e_hi], "signature": "size-clamped-min-wrongly"}
+    return True, {"H": H, "excess": e_h}
+
+
+_SIZE_NARROW_FIXED = [{"kind": "balanced", "scale": 0.9e4, "table": [80.0, 110.0, 140.0], "hmin": 40.0, "hmax": 200.0},   # root below the tabulated heights
+                      {"kind": "balanced", "scale": 2.0e4, "table": [80.0, 110.0, 140.0], "hmin": 40.0, "hmax": 200.0},   # root above them
+                      {"kind": "balanced", "scale": 3.2e4, "table": [80.0, 110.0, 140.0], "hmin": 40.0, "hmax": 200.0}]   # clamped at the maximum height
+_size_narrow_counter = [0]
+
+
+def _size_narrow_gen(rng):
+    k = _size_narrow_counter[0]
+    _size_narrow_counter[0] += 1
+    if k < len(_SIZE_NARROW_FIXED):
+        return dict(_SIZE_NARROW_FIXED[k])
+    lo = rng.choice([60.0, 80.0, 100.0])
+    return {"kind": rng.choice(["balanced", "heating", "cooling"]), "scale": rng.choice([4.0e3, 0.9e4, 1.5e4, 2.0e4, 2.6e4, 3.2e4]), "n": rng.choice([1, 4]),
+            "table": [lo, lo + 25.0, lo + 50.0], "hmin": rng.choice([30.0, 40.0, lo]), "hmax": rng.choice([lo + 50.0, 200.0, 250.0])}
+
+
+native(f"{G}:GHE.size#hourly", _size_narrow_check, _size_narrow_gen, None,
+       bound="real GHE objects (1 or 4 boreholes) on a three-height g-function family that need not span the height window 30..250 m, 6 load magnitudes x 3 shapes: the sized height is a "
+             "root of the excess (1e-3 K) or sits at a bound with the sign that explains it (registered under the name of the second GHE.size contract, hybrid method)")
+
+
 # ---- C13: the design is a function of the physical inputs, not of the call history (bounded, real manager) --------------------------
 def _build_permuted(a, order_seed, nominal_height):
     """the same configuration as build_manager(a), setters called in a shuffled order, another nominal borehole height"""
